@@ -33,6 +33,24 @@ var bigCfg = gen.RandCfg{MaxT: 6, MaxNT: 7, MaxAlt: 3, MaxRhs: 4, Lits: true, Pr
 
 // pickGrammar: families first, then random grammars.
 func pickGrammar(r *rand.Rand, idx int, usable bool, cfg gen.RandCfg) *spec.Grammar {
+	g := pickGrammar0(r, idx, usable, cfg)
+	if idx >= len(families) && idx%9 == 6 {
+		// the start symbol carries yaccgo's default name, so that renderings may omit %start
+		free := true
+		for _, n := range g.NTs {
+			free = free && n.Name != "start"
+		}
+		for _, t := range g.Tokens {
+			free = free && t.Name != "start"
+		}
+		if free {
+			g.NTs[g.Start].Name = "start"
+		}
+	}
+	return g
+}
+
+func pickGrammar0(r *rand.Rand, idx int, usable bool, cfg gen.RandCfg) *spec.Grammar {
 	if idx < len(families) {
 		b, _ := json.Marshal(families[idx])
 		var g spec.Grammar
